@@ -82,6 +82,8 @@ class Scenario:
             self.blob = BlobFile(self.loop, self.hash, None if self.late else self.decl * self.U, self._completed, self.dir)
         self.writers = {}
         self.key = {}
+        self.hung = set()
+        self.allow_hangup = rng.random() < 0.35
         self.nwriters = rng.choice([1, 2, 2, 3, 3])
         self.plans = {w: self._plan(w) for w in range(1, self.nwriters + 1)}
         self.evs = []
@@ -207,6 +209,11 @@ class Scenario:
                 acts += ['close', 'delete']
             if self.writers and len(self.plans) < WMAX and not self.plain and rng.random() < 0.12:
                 acts += ['reopen']
+            hungup = [w for w, wr in self.writers.items() if not self.plans[w]['chunks'] and not wr.closed() and w not in self.hung]
+            # (at most one hang-up per schedule, in a third of the schedules, and only while the blob is incomplete: otherwise the
+            # driver itself would close every writer that the blob ought to have shut down)
+            if hungup and not self.plain and not self.hung and self.allow_hangup and not self.blob.get_is_verified():
+                acts += ['closew'] * 2
             if not acts:
                 break
             a = rng.choice(acts)
@@ -214,6 +221,13 @@ class Scenario:
                 self.open_writer(unopened.pop(), guarded=self.plain or rng.random() < 0.9)
             elif a == 'write':
                 self.write(rng.choice(live))
+            elif a == 'closew':
+                # the peer sent all it had and its connection ends: the protocol closes its writer's handle
+                w = rng.choice(hungup)
+                self.hung.add(w)
+                with self.loop:
+                    self.writers[w].close_handle()
+                self.log('CloseW', w=w)
             elif a == 'reopen':
                 # a peer asks again either while its attempt is still open (a reconnect racing the old connection) or after the
                 # callbacks of its finished attempt have run (the entry is gone from blob.writers): never in between -- a
@@ -396,7 +410,8 @@ class BufScenario(Scenario):
                 if a == 'open':
                     w = new.pop()
                     ok = False
-                    if not self.blob.get_is_verified() and self.blob.is_writeable():     # the callers' guard (client.download_blob)
+                    guarded = rng.random() < 0.85          # the rest ask for a writer without the callers' check (bare API)
+                    if not guarded or (not self.blob.get_is_verified() and self.blob.is_writeable()):     # the callers' guard (client.download_blob)
                         try:
                             with self.loop:
                                 self.writers[w] = self.blob.get_blob_writer(f'1.2.3.{w}', 3333)
@@ -405,7 +420,7 @@ class BufScenario(Scenario):
                             ok = False
                     if not ok:
                         self.plans[w]['chunks'] = []
-                    self.log('Open', w=w, ok=ok)
+                    self.log('Open', w=w, ok=ok, guarded=guarded)
                 elif a == 'write':
                     self.write(rng.choice(live))
                 else:
@@ -413,6 +428,23 @@ class BufScenario(Scenario):
                     self.log('Step')
             self.loop.drain(limit=10_000)
             self.log('Quiesce')
+            if self.blob.get_is_verified() and slot < WMAX and rng.random() < 0.3:
+                # a late peer that did not notice the blob is complete: asks for a writer without the callers' check and delivers
+                # another complete correct copy -- nothing may change, nothing may be announced again
+                slot += 1
+                self.plans[slot] = {'kind': 'correct', 'chunks': [(0, self.L, True)]}
+                ok = False
+                try:
+                    with self.loop:
+                        self.writers[slot] = self.blob.get_blob_writer(f'1.2.3.{slot}', 3333)
+                    ok = True
+                except OSError:
+                    self.plans[slot]['chunks'] = []
+                self.log('Open', w=slot, ok=ok, guarded=False)
+                if ok:
+                    self.write(slot)
+                self.loop.drain(limit=10_000)
+                self.log('Quiesce')
             self.read()
             self.loop.drain(limit=10_000)
         self.escaped = [str(c.get('exception') or c.get('message')) for c in self.loop.exceptions]
